@@ -1,4 +1,6 @@
 import A5.Lemmas.LookupSkel
+import A5.Model.DistanceG
+import A5.Lemmas.DistanceOutside
 /-! # C01 — point-to-cell lookup: resolution of the answer, error behaviour, soundness of a hit
 
 "For every point and every resolution −1..29 the point-to-cell lookup succeeds and returns a cell of
@@ -239,5 +241,41 @@ example (lon lat : Float) : ∃ tail, probeSamples lon lat 3 = (lon, lat) :: tai
 
 /-- world aliases: ids 1 and 0x4000000000000004 have no resolution marker -/
 example : getResolution 1 = -1 ∧ getResolution 0x4000000000000004 = -1 := by decide
+
+/-! ## T6-T8: what the fallback's ranking means (repair of defect F16)
+
+The hit test of the lookup (`polyContains`: positive) and the score the fallback ranks the misses by (`polyDistanceOutside`) are
+folds over the same edge-by-edge cross products.  `Model/DistanceG.lean` states both loops over an arbitrary scalar type
+(`containsG`, `distanceOutsideG`), tied to the Float model by induction on the loop counter only; `Lemmas/DistanceOutside.lean`
+instantiates them at the reals. -/
+
+open A5.DG in
+/-- **T6 (ties).** the Float model's two loops ARE the generic ones at `Float` -/
+theorem fallback_loops_are_twins (vs : Poly) (p : V2) :
+    polyDistanceOutside vs p = distanceOutsideG floatOps (vs.map toPair) (toPair p) ∧
+    polyContains vs p =
+      (if !windingCorrect vs then .panic .notCCW else .ok (containsG floatOps (vs.map toPair) (toPair p))) :=
+  ⟨polyDistanceOutside_tie vs p, polyContains_tie vs p⟩
+
+open A5.DG in
+/-- **T7 (Float level, structure only).** when no edge reports the point on its wrong side, the hit test answers exactly `1.0` and
+the distance exactly `0.0`: the two never disagree about a point the cross products place inside -/
+theorem inside_is_hit_and_distance_zero (vs : Poly) (p : V2) (hw : windingCorrect vs = true)
+    (h : polyViolated vs p = false) : polyContains vs p = .ok 1.0 ∧ polyDistanceOutside vs p = 0.0 :=
+  ⟨polyContains_eq_one_of_no_violation vs p hw h, polyDistanceOutside_eq_zero_of_no_violation vs p h⟩
+
+open A5.DG in
+/-- **T8 (real arithmetic).** for ANY polygon (list of points) and any point: the distance is non-negative; it is zero exactly
+when the point is on the inner side of every edge; the hit test is positive exactly then; and the distance never overestimates
+the Euclidean distance from the point to any point on the inner side of every edge - so the cell the fallback returns is, among
+the tried cells, one whose pentagon the point is nearest to in this (lower-bound) sense, and a tried cell that actually
+contains the point always wins with distance 0. -/
+theorem fallback_distance_sound (vs : List (ℝ × ℝ)) (p : ℝ × ℝ) :
+    0 ≤ distanceOutsideR vs p ∧
+    (distanceOutsideR vs p = 0 ↔ InsideR vs p) ∧
+    (0 < containsR vs p ↔ distanceOutsideR vs p = 0) ∧
+    ∀ x, InsideR vs x → distanceOutsideR vs p ≤ eucl p x :=
+  ⟨distanceOutside_nonneg vs p, distanceOutside_eq_zero_iff vs p, contains_pos_iff_distanceOutside_zero vs p,
+    fun x hx => distanceOutside_le_dist vs p x hx⟩
 
 end A5.C01
